@@ -10,10 +10,68 @@ import nauyaca.server.tls_protocol as tp
 
 import vf.server  # noqa: F401
 import asyncio as _asyncio
+import ssl as _ssl
+import tempfile as _tempfile
 import time as _time
 
 from vf import FixedClock, HarnessError, NoLog, bind
 from vf.stubs import FakeAsyncio, MiniLoop, _StopServer
+
+
+import nauyaca.security.certificates as _certs_mod  # noqa: E402
+import nauyaca.security.pyopenssl_tls as _pyo_mod  # noqa: E402
+import nauyaca.security.tls as _tls_mod  # noqa: E402
+import nauyaca.utils.logging as _logging_mod  # noqa: E402
+
+_REAL_GENERATE = _certs_mod.generate_self_signed_cert
+_PAIR = []
+
+
+def _selfsigned_pair():
+    if not _PAIR:
+        _PAIR.append(_REAL_GENERATE(hostname="localhost", key_size=2048, valid_days=365))
+    return _PAIR[0]
+
+
+_selfsigned_pair()          # generated at import time: never under the symbolic engine
+
+
+class _FakeSSLContext:
+    """what the self-signed stdlib branch builds when its helper cannot be short-cut by name"""
+    kind = "stdlib-selfsigned"
+
+    def __init__(self, a, k):
+        self.args = (a, k)
+        self.loaded = []
+
+    def load_cert_chain(self, *a, **k):
+        self.loaded.append(a)
+
+    def __getattr__(self, name):
+        raise HarnessError("fake SSLContext.%s is not modelled" % name)
+
+
+class _FakeTmp:
+    n = 0
+
+    def __init__(self, suffix):
+        _FakeTmp.n += 1
+        self.name = "/tmp/vf-selfsigned-%d%s" % (_FakeTmp.n, suffix)
+
+    def __enter__(self):
+        return self
+
+    def __exit__(self, *a):
+        return False
+
+    def write(self, data):
+        return len(data)
+
+    def flush(self):
+        pass
+
+    def close(self):
+        pass
 
 
 class _Ctx:
@@ -31,12 +89,21 @@ def capture(config, **kw):
     bind(sp, _asyncio, fa)
     bind(tp, _asyncio, fa, required=False)
     bind(mw, _time, FixedClock(), required=False)   # CrossHair would otherwise make time.monotonic() a symbolic float
-    srv.configure_logging = lambda **k: None
-    srv.get_logger = lambda name=None: NoLog()
-    srv.create_server_context = lambda *a, **k: made.append(_Ctx("stdlib", (a, k))) or made[-1]
-    srv.create_pyopenssl_server_context = lambda *a, **k: made.append(_Ctx("pyopenssl", (a, k))) or made[-1]
-    srv._create_self_signed_context = lambda *a, **k: made.append(_Ctx("stdlib-selfsigned", (a, k))) or made[-1]
-    srv._create_self_signed_pyopenssl_context = lambda *a, **k: made.append(_Ctx("pyopenssl-selfsigned", (a, k))) or made[-1]
+    # collaborators of start_server, substituted by identity (whatever the import style):
+    bind(srv, _logging_mod, {"configure_logging": lambda **k: None, "get_logger": lambda name=None: NoLog()}, required=False)
+    bind(srv, _tls_mod, {"create_server_context": lambda *a, **k: made.append(_Ctx("stdlib", (a, k))) or made[-1]},
+         required=False)
+    bind(srv, _pyo_mod, {"create_pyopenssl_server_context":
+                         lambda *a, **k: made.append(_Ctx("pyopenssl", (a, k))) or made[-1]}, required=False)
+    # self-signed mode: the key generation is replaced by a pair generated once (outside the engine); if the private
+    # helpers still carry their names they are short-cut altogether, otherwise their real code runs on that pair
+    bind(srv, _certs_mod, {"generate_self_signed_cert": lambda *a, **k: _selfsigned_pair()}, required=False)
+    bind(srv, _ssl, {"SSLContext": lambda *a, **k: made.append(_FakeSSLContext(a, k)) or made[-1]}, required=False)
+    bind(srv, _tempfile, {"NamedTemporaryFile": lambda *a, **k: _FakeTmp(k.get("suffix") or "")}, required=False)
+    if hasattr(srv, "_create_self_signed_context"):
+        srv._create_self_signed_context = lambda *a, **k: made.append(_Ctx("stdlib-selfsigned", (a, k))) or made[-1]
+    if hasattr(srv, "_create_self_signed_pyopenssl_context"):
+        srv._create_self_signed_pyopenssl_context = lambda *a, **k: made.append(_Ctx("pyopenssl-selfsigned", (a, k))) or made[-1]
     co = srv.start_server(config, **kw)
     try:
         co.send(None)
